@@ -321,7 +321,7 @@ func FormatDataType(dt *ast.DataType) string {
 				// String parameters in type need extra escaping: 'val' -> \\\'val\\\'
 				params = append(params, fmt.Sprintf("\\\\\\'%s\\\\\\'", escapeStringForTypeParam(fmt.Sprintf("%v", lit.Value))))
 			} else {
-				params = append(params, fmt.Sprintf("%v", lit.Value))
+				params = append(params, formatExprForType(lit))
 			}
 		} else if nested, ok := p.(*ast.DataType); ok {
 			params = append(params, FormatDataType(nested))
@@ -356,7 +356,7 @@ func FormatDataType(dt *ast.DataType) string {
 		} else if unary, ok := p.(*ast.UnaryExpr); ok {
 			// Unary expression (e.g., -1 for negative numbers)
 			if lit, ok := unary.Operand.(*ast.Literal); ok {
-				params = append(params, fmt.Sprintf("%s%v", unary.Op, lit.Value))
+				params = append(params, unary.Op+formatExprForType(lit))
 			} else {
 				params = append(params, formatExprForType(p))
 			}
@@ -378,7 +378,7 @@ func formatBinaryExprForType(expr *ast.BinaryExpr) string {
 			escaped := escapeStringForTypeParam(fmt.Sprintf("%v", lit.Value))
 			left = fmt.Sprintf("\\\\\\'%s\\\\\\'", escaped)
 		} else {
-			left = fmt.Sprintf("%v", lit.Value)
+			left = formatExprForType(lit)
 		}
 	} else if ident, ok := expr.Left.(*ast.Identifier); ok {
 		left = ident.Name()
@@ -388,7 +388,7 @@ func formatBinaryExprForType(expr *ast.BinaryExpr) string {
 
 	// Format right side
 	if lit, ok := expr.Right.(*ast.Literal); ok {
-		right = fmt.Sprintf("%v", lit.Value)
+		right = formatExprForType(lit)
 	} else if ident, ok := expr.Right.(*ast.Identifier); ok {
 		right = ident.Name()
 	} else if unary, ok := expr.Right.(*ast.UnaryExpr); ok {
@@ -404,7 +404,7 @@ func formatBinaryExprForType(expr *ast.BinaryExpr) string {
 // formatUnaryExprForType formats a unary expression for use in type parameters (e.g., -100)
 func formatUnaryExprForType(expr *ast.UnaryExpr) string {
 	if lit, ok := expr.Operand.(*ast.Literal); ok {
-		return expr.Op + fmt.Sprintf("%v", lit.Value)
+		return expr.Op + formatExprForType(lit)
 	}
 	return expr.Op + formatExprForType(expr.Operand)
 }
@@ -423,15 +423,17 @@ func formatFunctionCallForType(fn *ast.FunctionCall) string {
 func formatExprForType(expr ast.Expression) string {
 	switch e := expr.(type) {
 	case *ast.Literal:
-		if e.Type == ast.LiteralArray {
-			// Format array literal: [1, 2] -> "[1, 2]"
-			if elements, ok := e.Value.([]ast.Expression); ok {
-				parts := make([]string, 0, len(elements))
-				for _, elem := range elements {
-					parts = append(parts, formatExprForType(elem))
-				}
-				return "[" + strings.Join(parts, ", ") + "]"
+		// Array and tuple literals hold their elements as expressions: format them element by
+		// element ([1, 2] -> "[1, 2]", (1, 2) -> "(1, 2)"); %v would print pointer addresses
+		if elements, ok := e.Value.([]ast.Expression); ok {
+			parts := make([]string, 0, len(elements))
+			for _, elem := range elements {
+				parts = append(parts, formatExprForType(elem))
 			}
+			if e.Type == ast.LiteralTuple {
+				return "(" + strings.Join(parts, ", ") + ")"
+			}
+			return "[" + strings.Join(parts, ", ") + "]"
 		}
 		return fmt.Sprintf("%v", e.Value)
 	case *ast.Identifier:
